@@ -1,8 +1,123 @@
-(** C10 — property theorems (placeholder during bring-up). *)
+(** C10 — directory manifests map paths to the last written entry: property theorems.
+
+    Model (Model.v): the mantaray trie of github.com/gauss-project/manifest v0.4.2
+    (node.go, marshal.go byte for byte, persist.go), the wrapper pkg/manifest/mantaray.go as
+    a state machine over add / remove / lookup / hasPrefix / store / reload, the load-saver
+    as a content-addressed store.  [addr] (data -> reference) and [keygen] (the 32 random
+    bytes of an obfuscation key) are universally quantified; no injectivity of [addr] is
+    assumed: the theorems ask that no two payloads saved in the history collide.
+
+    The full-strength statement (every lookup after every history in the domain returns
+    the last written entry) is FALSE for the code: the [_refuted] theorems give one
+    history per excluded class (all replayed on the Go code: corpus of harness/cmd/c10;
+    the defects are in the dependency, outside /repo).  The [_partial] theorems hold for
+    all histories outside those classes ([disciplined] in Spec.v):
+      X1  a removed path is a proper prefix of a present path,
+      X2  an entry with metadata is overwritten by one with empty metadata,
+      X3  add/remove after the first Store (or on a reloaded manifest);
+    domain: non-empty byte paths, 32-byte references, metadata inside the modelled JSON
+    fragment and below the 64 KiB fork limit. *)
 From Coq Require Import List NArith Bool.
 Import ListNotations.
-Require Import Aurora.C10.Model.
+Require Import Aurora.C10.Model Aurora.C10.Spec Aurora.C10.Hist Aurora.C10.Refute.
 
-Theorem C10_bringup : forall f p v, spec_upd f p v p = v.
-Proof. intros f p v. unfold spec_upd. assert (H : forall l, list_eqb_N l l = true) by (induction l; simpl; [reflexivity | rewrite N.eqb_refl; assumption]). now rewrite H. Qed.
-Print Assumptions C10_bringup.
+(** after any disciplined history of add/remove/lookup/hasPrefix/store/reload a lookup of any
+    path returns exactly the reference and metadata of the final mapping, or not-found *)
+Theorem C10_lookup_refines_partial : forall (addr : list N -> list N) (keygen : list N) (enc : bool) (h : list op) (p : path),
+  (forall d, length (addr d) = 32) -> length keygen = 32 ->
+  disciplined spec_empty false h ->
+  no_collision addr (ms_log (final_state addr keygen enc h)) ->
+  lookup_obs addr keygen (final_state addr keygen enc h) p = spec_obs (spec_run spec_empty h) p.
+Proof. intros addr keygen enc h p Ha Hk. exact (lookup_refines addr keygen Ha Hk enc h p). Qed.
+Print Assumptions C10_lookup_refines_partial.
+
+(** prefix queries, the half that holds: every prefix of a present path is reported present *)
+Theorem C10_has_prefix_partial : forall (addr : list N -> list N) (keygen : list N) (enc : bool) (h : list op) (p : path),
+  (forall d, length (addr d) = 32) -> length keygen = 32 ->
+  disciplined spec_empty false h ->
+  no_collision addr (ms_log (final_state addr keygen enc h)) ->
+  spec_has_prefix (spec_run spec_empty h) p ->
+  has_prefix_obs addr keygen (final_state addr keygen enc h) p = BBool true.
+Proof. intros addr keygen enc h p Ha Hk. exact (has_prefix_complete addr keygen Ha Hk enc h p). Qed.
+Print Assumptions C10_has_prefix_partial.
+
+(** what the full-strength statement would be for one instance *)
+Definition full_statement_fails : Prop :=
+  exists (addr : list N -> list N) (keygen : list N) (enc : bool) (h : list op) (p : path),
+    (forall d, length (addr d) = 32) /\ length keygen = 32 /\ in_domain false h /\
+    no_collision addr (ms_log (final_state addr keygen enc h)) /\
+    lookup_obs addr keygen (final_state addr keygen enc h) p <> spec_obs (spec_run spec_empty h) p.
+
+Lemma witness : forall h p, wit_ok h -> ~ lookup_agrees h p -> full_statement_fails.
+Proof.
+  intros h p [Hd Hc] Hn. exists toy_addr, zkey, false, h, p.
+  split; [exact toy_addr_len|]. split; [reflexivity|]. split; [exact Hd|]. split; [now apply no_collisionb_ok | exact Hn].
+Qed.
+
+(** X1: add a; add ab; remove a — ab is gone (also when a is only a branching point) *)
+Theorem C10_remove_prefix_refuted : full_statement_fails.
+Proof. exact (witness _ _ (proj1 rm_prefix_wit) (proj2 rm_prefix_wit)). Qed.
+Print Assumptions C10_remove_prefix_refuted.
+
+(** X2: add a {k:v}; add a {} — the old metadata stays *)
+Theorem C10_overwrite_metadata_refuted : full_statement_fails.
+Proof. exact (witness _ _ (proj1 overwrite_wit) (proj2 overwrite_wit)). Qed.
+Print Assumptions C10_overwrite_metadata_refuted.
+
+(** X3: add a; add b; store; remove a; store; reload — a is back (no reference invalidation) *)
+Theorem C10_mutate_after_store_refuted : full_statement_fails.
+Proof. exact (witness _ _ (proj1 rm_after_store_wit) (proj2 rm_after_store_wit)). Qed.
+Print Assumptions C10_mutate_after_store_refuted.
+
+(** X3: add a; store; lookup a; add b; store; reload — b is missing *)
+Theorem C10_add_after_lookup_refuted : full_statement_fails.
+Proof. exact (witness _ _ (proj1 add_after_lookup_wit) (proj2 add_after_lookup_wit)). Qed.
+Print Assumptions C10_add_after_lookup_refuted.
+
+(** outside the domain, an entry with the empty reference (as pkg/api writes for "/"): after
+    Store the lookup returns 32 zero bytes instead of the empty reference; with only empty
+    references in the manifest the lookup after Store panics *)
+Theorem C10_empty_reference_refuted :
+  (exists h p, no_collision toy_addr (ms_log (final_state toy_addr zkey false h)) /\
+     lookup_obs toy_addr zkey (final_state toy_addr zkey false h) p = BFound (repeat 0%N 32) kv /\
+     spec_obs (spec_run spec_empty h) p = BFound [] kv) /\
+  (exists h p, lookup_obs toy_addr zkey (final_state toy_addr zkey false h) p = BErr EPanic).
+Proof.
+  split.
+  - exists h_empty_ref, [47%N]. destruct empty_ref_wit as [H1 [H2 H3]]. split; [now apply no_collisionb_ok | split; assumption].
+  - exists h_only_empty, [97%N]. exact only_empty_wit.
+Qed.
+Print Assumptions C10_empty_reference_refuted.
+
+(** prefix queries, the half that fails even inside the discipline: after add ab; add ac;
+    remove ab; remove ac the query hasPrefix a is true although no path is present *)
+Theorem C10_has_prefix_refuted :
+  exists h p, disciplined spec_empty false h /\
+    no_collision toy_addr (ms_log (final_state toy_addr zkey false h)) /\
+    has_prefix_obs toy_addr zkey (final_state toy_addr zkey false h) p = BBool true /\
+    ~ spec_has_prefix (spec_run spec_empty h) p.
+Proof.
+  exists h_has_prefix, [97%N]. destruct has_prefix_wit as [[_ Hc] [Hb Hnone]].
+  split; [exact h_has_prefix_disciplined|]. split; [now apply no_collisionb_ok|]. split; [exact Hb|].
+  intros [q [v [_ Hq]]]. rewrite Hnone in Hq. discriminate Hq.
+Qed.
+Print Assumptions C10_has_prefix_refuted.
+
+(** non-vacuity: a history with overwrites, a 40-byte path, nested directories, metadata, a
+    leaf removal, Store, lookups, reload meets every hypothesis of the partial theorems *)
+Definition md1 : meta := [([67;116]%N, [116;120;116]%N)].
+Definition h_example : list op :=
+  [OAdd [47]%N r1 md1; OAdd [105;109;103;47;49]%N r2 md1; OAdd [105;109;103;47;50]%N r3 [];
+   OAdd [105;109;103;47;49]%N r3 md1; OAdd (repeat 48%N 40) r1 []; OAdd [105;110]%N r2 []; ORemove [105;110]%N;
+   OLookup [47]%N; OStore; OLookup [105;109;103;47;49]%N; OReload; OHasPrefix [105;109]%N; OStore].
+Example C10_hyps_satisfiable :
+  (forall d, length (toy_addr d) = 32) /\ length zkey = 32 /\
+  no_collision toy_addr (ms_log (final_state toy_addr zkey false h_example)) /\
+  lookup_obs toy_addr zkey (final_state toy_addr zkey false h_example) [105;109;103;47;49]%N = BFound r3 md1 /\
+  lookup_obs toy_addr zkey (final_state toy_addr zkey false h_example) (repeat 48%N 40) = BFound r1 [] /\
+  lookup_obs toy_addr zkey (final_state toy_addr zkey false h_example) [105;110]%N = BErr ENotFound /\
+  length (ms_log (final_state toy_addr zkey false h_example)) = 8.
+Proof.
+  split; [exact toy_addr_len|]. split; [reflexivity|]. split; [apply no_collisionb_ok; vm_compute; reflexivity|].
+  vm_compute. repeat split; reflexivity.
+Qed.
